@@ -3,7 +3,7 @@
 (* TLC state `v' (a short tuple of small integers); the invariant Out builds   *)
 (* the abstract message of the case from WireRR's layout tables, evaluates the *)
 (* specification on it and appends one JSON line                               *)
-(*    [g, v, msg, ok, bytes, rroff, lenmsg (, norm)]                           *)
+(*    [g, v, msg, ok, bytes, rroff, lenmsg, plain (, norm)]                    *)
 (* to vectors.ndjson: the message, whether it can be packed, the octets        *)
 (* EncMsg prescribes, the record offsets, the arithmetic length and -- when    *)
 (* it differs from msg -- what a decoder must recover (NormMsg).               *)
@@ -12,7 +12,7 @@
 EXTENDS WireRR, GenBase
 
 CONSTANTS Mode,        \* "layout" | "types" | "cross" | "rrhdr" | "opts" | "svcb" | "gateway" | "nodata" | "unknown"
-                       \* | "hdr" | "rcode" | "sections" | "big"
+                       \* | "hdr" | "rcode" | "sections" | "big" | "compress"
           Tier,        \* 0 quick (boundary subsets), 1 thorough (all flag words, all RCODEs)
           Shard, NShards
 
@@ -43,7 +43,10 @@ StrsBnd == << << <<>> >>, << <<97>>, <<98>> >>, << Rep(255, 120) >>, << <<>>, <<
               << <<34, 92>>, <<0, 255>>, <<59, 32>> >>, << Rep(255, 1), Rep(255, 2), <<>> >> >>
 OstrBnd == << <<>>, << <<>> >>, << <<49, 50>> >> >>
 
-BlobBnd(max) == << <<>>, <<0>>, <<255>>, <<1, 2>>, <<1, 2, 3>>, <<92, 34, 92, 48, 54, 53, 59, 0, 255>>, Ramp(max) >>
+BlobBnd(max) == << <<>>, <<0>>, <<255>>, <<1, 2>>, <<1, 2, 3>>, <<92, 34, 92, 48, 54, 53, 59, 0, 255>>, Ramp(Min(max, 300)), Ramp(max),
+                  [i \in 1..max |-> 97 + (i % 26)] >>                     \* long and printable
+
+NoBackslash(b) == [i \in 1..Len(b) |-> IF b[i] = 92 THEN 93 ELSE b[i]]
 
 BitmapBnd  == << <<>>, <<1>>, <<0>>, <<65535>>, <<1, 2, 6, 15, 46, 47, 48>>, <<7, 8>>, <<255, 256>>,
                  <<1, 257, 513, 65281>>, [i \in 1..256 |-> i - 1], <<1234, 4660, 22136>> >>
@@ -112,6 +115,7 @@ Bnd(k, max) ==
     [] k = "str"  -> StrBnd
     [] k = "strs" -> StrsBnd
     [] k = "ostr" -> OstrBnd
+    [] k = "octet" -> SubSeq(BlobBnd(max), 1, 7) \o << NoBackslash(Ramp(max)), BlobBnd(max)[9] >>   \* long values: without backslash
     [] k \in OpaqueKinds -> BlobBnd(max)
     [] k = "bitmap"  -> BitmapBnd
     [] k = "bitmap0" -> Bitmap0Bnd
@@ -133,7 +137,7 @@ Bnd(k, max) ==
 Driven(es, i) == \E j \in 1..Len(es) : ("sz" \in DOMAIN es[j] /\ es[j].sz = es[i].n) \/ ("of" \in DOMAIN es[j] /\ es[j].of = es[i].n)
 KindOfField(es, n) == es[CHOOSE j \in 1..Len(es) : es[j].n = n].k
 \* a sized blob can be as long as its length field can say
-MaxBlob(es, i) == IF "sz" \in DOMAIN es[i] /\ KindOfField(es, es[i].sz) = "u8" THEN 255 ELSE 300
+MaxBlob(es, i) == IF "sz" \in DOMAIN es[i] /\ KindOfField(es, es[i].sz) = "u8" THEN 255 ELSE 2000
 
 BaseF(es) == [n \in { es[i].n : i \in 1..Len(es) } |->
                 LET i == CHOOSE j \in 1..Len(es) : es[j].n = n IN
@@ -269,6 +273,60 @@ BigMsg(x) ==
     [] x = 5 -> Msg(H0, <<Q1>>, [i \in 1..3 |-> RR(NameWww, 10, 1, Ttl1h, [Data |-> Ramp(6000 + i)])], <<>>, <<>>)   \* beyond 16384 octets
     [] x = 6 -> Msg(H0, <<Q1>>, [i \in 1..40 |-> RR(NameWww, 16, 1, Ttl1h, [Txt |-> << Rep(255, 65), Rep(200, 48 + (i % 10)) >>])], <<>>, <<>>)
 
+\* Messages whose names repeat and share suffixes (C08 with Compress = TRUE; C01 packs them uncompressed).
+Ex      == << <<101, 120, 97, 109, 112, 108, 101>>, <<99, 111, 109>> >>               \* example.com.
+ExUp    == << <<69, 88, 65, 77, 80, 76, 69>>, <<99, 111, 109>> >>                    \* EXAMPLE.com.
+Www     == << <<119, 119, 119>> >> \o Ex
+Mail    == << <<109, 97, 105, 108>> >> \o Ex
+Ns1     == << <<110, 115, 49>> >> \o Ex
+Esc     == << <<97, 46, 98>>, <<200, 32>> >> \o Ex                                    \* a\.b.\200\ .example.com.
+ARec(n, x) == RR(n, 1, 1, Ttl1h, [A |-> <<192, 0, 2, x>>])
+CompressCases == <<
+  \* 1: the classic reply: owner repeated, CNAME chain, NS and glue
+  Msg(H0, << [name |-> Www, qtype |-> 1, qclass |-> 1] >>,
+      << RR(Www, 5, 1, Ttl1h, [Target |-> Mail]), ARec(Mail, 1), ARec(Mail, 2) >>,
+      << RR(Ex, 2, 1, Ttl1h, [Ns |-> Ns1]) >>, << ARec(Ns1, 3) >>),
+  \* 2: case differs: same name for DNS, different text for the library's map
+  Msg(H0, << [name |-> Www, qtype |-> 15, qclass |-> 1] >>,
+      << RR(Www, 15, 1, Ttl1h, [Preference |-> 10, Mx |-> << <<109, 120>> >> \o ExUp]), RR(<< <<87, 87, 87>> >> \o Ex, 15, 1, Ttl1h, [Preference |-> 20, Mx |-> Mail]) >>,
+      <<>>, << ARec(<< <<109, 120>> >> \o Ex, 9) >>),
+  \* 3: labels that need escapes, repeated
+  Msg(H0, << [name |-> Esc, qtype |-> 255, qclass |-> 1] >>,
+      << ARec(Esc, 1), RR(Esc, 2, 1, Ttl1h, [Ns |-> << <<110, 115>> >> \o Esc]), RR(<< <<200>> >> \o Esc, 16, 1, Ttl1h, [Txt |-> << <<104, 105>> >>]) >>,
+      <<>>, <<>>),
+  \* 4: names in fields that must not be compressed (SRV, RP, RRSIG signer, NSEC next) next to compressible ones
+  Msg(H0, << [name |-> Ex, qtype |-> 33, qclass |-> 1] >>,
+      << RR(Ex, 33, 1, Ttl1h, [Priority |-> 1, Weight |-> 2, Port |-> 443, Target |-> Www]),
+         RR(Ex, 17, 1, Ttl1h, [Mbox |-> Mail, Txt |-> Www]),
+         RR(Ex, 47, 1, Ttl1h, [NextDomain |-> Www, TypeBitMap |-> <<1, 2, 46>>]),
+         RR(Www, 5, 1, Ttl1h, [Target |-> Ex]) >>,
+      << RR(Ex, 46, 1, Ttl1h, [TypeCovered |-> 33, Algorithm |-> 13, Labels |-> 2, OrigTtl |-> Ttl1h, Expiration |-> <<101, 0, 0, 0>>,
+                               Inception |-> <<100, 0, 0, 0>>, KeyTag |-> 4660, SignerName |-> Ex, Signature |-> Ramp(64)]) >>, <<>>),
+  \* 5: SOA with the root and sibling names
+  Msg(H0, << [name |-> <<>>, qtype |-> 6, qclass |-> 1] >>,
+      << RR(<<>>, 6, 1, Ttl1h, [Ns |-> << <<97>> >>, Mbox |-> << <<110>>, <<97>> >>, Serial |-> <<120, 0, 0, 1>>, Refresh |-> Z4, Retry |-> Z4, Expire |-> Z4, Minttl |-> Z4]),
+         RR(Ex, 6, 1, Ttl1h, [Ns |-> Ns1, Mbox |-> << <<104>> >> \o Ns1, Serial |-> <<0, 0, 0, 1>>, Refresh |-> Z4, Retry |-> Z4, Expire |-> Z4, Minttl |-> Z4]) >>,
+      <<>>, <<>>),
+  \* 6: two questions only (compressible) / one question only (not)
+  Msg(H0, << [name |-> Www, qtype |-> 1, qclass |-> 1], [name |-> Www, qtype |-> 28, qclass |-> 1] >>, <<>>, <<>>, <<>>),
+  Msg(H0, << [name |-> Www, qtype |-> 1, qclass |-> 1] >>, <<>>, <<>>, <<>>),
+  \* 8: HIP rendezvous servers, MINFO, NAPTR replacement, DNAME, KX, AFSDB, with OPT
+  Msg(H0, << [name |-> Ex, qtype |-> 255, qclass |-> 1] >>,
+      << RR(Ex, 55, 1, Ttl1h, [HitLength |-> 2, PublicKeyAlgorithm |-> 2, PublicKeyLength |-> 3, Hit |-> <<1, 2>>, PublicKey |-> <<3, 4, 5>>, RendezvousServers |-> << Www, Ex >>]),
+         RR(Ex, 14, 1, Ttl1h, [Rmail |-> Mail, Email |-> Mail]),
+         RR(Ex, 35, 1, Ttl1h, [Order |-> 1, Preference |-> 2, Flags |-> <<117>>, Service |-> <<69, 50, 85>>, Regexp |-> <<>>, Replacement |-> Www]),
+         RR(Www, 39, 1, Ttl1h, [Target |-> Ex]), RR(Ex, 36, 1, Ttl1h, [Preference |-> 1, Exchanger |-> Mail]),
+         RR(Ex, 18, 1, Ttl1h, [Subtype |-> 1, Hostname |-> Mail]) >>,
+      <<>>, << OptRR(0, << Opt(12, [Padding |-> Rep(7, 0)]) >>) >>) >>
+
+\* a long opaque record pushes the following names across offset 16384, where pointers stop reaching
+PadMsg(pad) ==
+  Msg(H0, <<Q1>>,
+      << RR(Www, 10, 1, Ttl1h, [Data |-> Rep(pad, 170)]),
+         RR(Mail, 15, 1, Ttl1h, [Preference |-> 10, Mx |-> Www]),
+         RR(Mail, 15, 1, Ttl1h, [Preference |-> 20, Mx |-> << <<109, 120>> >> \o Mail]),
+         RR(<< <<109, 120>> >> \o Mail, 1, 1, Ttl1h, [A |-> <<192, 0, 2, 1>>]) >>, <<>>, <<>>)
+
 -----------------------------------------------------------------------------
 InShard(x) == x % NShards = Shard
 
@@ -304,6 +362,9 @@ Init ==
   \/ Mode = "rcode" /\ \E rc \in (IF Tier = 0 THEN RcodesQuick ELSE 0..4096), s \in 0..2 : InShard(rc) /\ v = <<rc, s>>
   \/ Mode = "sections" /\ \E a \in 0..3, b \in 0..3, c \in 0..3, d \in 0..3 : InShard(a + b + c + d) /\ v = <<a, b, c, d>>
   \/ Mode = "big" /\ \E x \in 1..6 : InShard(x) /\ v = <<x>>
+  \/ Mode = "compress" /\ \/ \E x \in 1..Len(CompressCases) : InShard(x) /\ v = <<1, x>>
+                          \/ \E pad \in (IF Tier = 0 THEN {16320, 16334, 16337, 16338, 16339, 16345, 16350, 16355, 16370}
+                                                        ELSE 16300..16400) : InShard(pad) /\ v = <<2, pad>>
 Next == UNCHANGED v
 
 Case ==
@@ -321,6 +382,7 @@ Case ==
     [] Mode = "rcode"    -> RcodeMsg(v[1], v[2])
     [] Mode = "sections" -> SectionsMsg(v[1], v[2], v[3], v[4])
     [] Mode = "big"      -> BigMsg(v[1])
+    [] Mode = "compress" -> IF v[1] = 1 THEN CompressCases[v[2]] ELSE PadMsg(v[2])
 
 \* the only deliberately ill-formed cases: RCODE 4096, RDATA of 65536 octets
 MayBeIllFormed == (Mode = "rcode" /\ v[1] > 4095) \/ (Mode = "big" /\ v[1] = 4)
@@ -331,7 +393,8 @@ Vector(m) ==
       base == [g |-> Mode, v |-> v, msg |-> m, ok |-> ok,
                bytes |-> IF ok THEN EncMsg(m) ELSE <<>>,
                rroff |-> IF ok THEN RROffsets(m) ELSE <<>>,
-               lenmsg |-> IF wf THEN LenMsg(m) ELSE 0]
+               lenmsg |-> IF wf THEN LenMsg(m) ELSE 0,
+               plain |-> wf /\ PlainMsg(m)]
   IN IF ok /\ NormMsg(m) # m THEN base @@ [norm |-> NormMsg(m)] ELSE base
 
 Fld(e) == IF "sz" \in DOMAIN e THEN [n |-> e.n, k |-> e.k, sz |-> e.sz]
